@@ -60,10 +60,11 @@ Qed.
 (* ---- static validation ---- *)
 Definition alias_nz (o : option N) : bool := match o with Some a => negb (a =? 0) | None => true end.
 Definition is_none {A} (o : option A) : bool := match o with Some _ => false | None => true end.
-Definition otopic_ok (o : option bytes) : bool := match o with Some t => spec_topic t | None => true end.
+Definition otopic_ok (o : option bytes) : bool :=
+  match o with Some t => spec_topic t | None => true end && match o with Some t => no_nul t | None => true end.
 
 Definition publish_static (p : publish) : bool :=
-  (pub_pid p =? 0) && negb (pub_dup p) && spec_topic (pub_topic p) && alias_nz (pub_alias p) &&
+  (pub_pid p =? 0) && negb (pub_dup p) && spec_topic (pub_topic p) && no_nul (pub_topic p) && alias_nz (pub_alias p) &&
   is_none (pub_subids p) && otopic_ok (pub_response_topic p) && ups_ok (pub_up p) &&
   ostr_ok (pub_correlation p) && ostr_ok (pub_content_type p).
 
@@ -77,6 +78,7 @@ Proof.
   destruct (pub_dup p); cbn [negb andb]; [reflexivity|].
   rewrite is_ok_bind, is_ok_vsl, topic_grammar.
   destruct (spec_topic (pub_topic p)) eqn:Et; cbn [negb andb]; [|now rewrite andb_false_r].
+  destruct (no_nul (pub_topic p)); cbn [negb andb]; [|now rewrite andb_false_r].
   rewrite (spec_topic_str_ok _ Et). cbn [andb].
   rewrite is_ok_bind.
   assert (Ha : is_ok (match pub_alias p with Some a => if a =? 0 then vfail else Ok tt | None => Ok tt end) = alias_nz (pub_alias p))
@@ -87,8 +89,9 @@ Proof.
   assert (Hr : is_ok (match pub_response_topic p with
                       | Some rt => if negb (is_valid_topic rt) then vfail else validate_string_length rt
                       | None => Ok tt end) = otopic_ok (pub_response_topic p)).
-  { destruct (pub_response_topic p) as [rt|]; [|reflexivity]. cbn [otopic_ok]. rewrite topic_grammar.
-    destruct (spec_topic rt) eqn:E; cbn; [|reflexivity]. rewrite is_ok_vsl. now apply spec_topic_str_ok. }
+  { destruct (pub_response_topic p) as [rt|]; [|reflexivity]. unfold otopic_ok. rewrite topic_grammar.
+    destruct (spec_topic rt) eqn:E; cbn [andb negb]; [|reflexivity].
+    destruct (no_nul rt); cbn [andb negb]; [|reflexivity]. rewrite is_ok_vsl. now apply spec_topic_str_ok. }
   rewrite Hr. btauto.
 Qed.
 
@@ -257,7 +260,7 @@ Qed.
 
 (* filters *)
 Definition filter_dyn (st : settings) (nl : option bool) (f : bytes) : bool :=
-  spec_plain_filter f &&
+  spec_plain_filter f && no_nul f &&
   (negb (spec_shared_filter f) || (st_shared_subscriptions_available st && negb (no_local_set nl))) &&
   (negb (filter_has_wildcard f) || st_wildcard_subscriptions_available st).
 
@@ -328,9 +331,9 @@ Qed.
 
 (* ================= soundness ================= *)
 
-(* rules the validation code does not enforce (known findings D8, D23, D17, D4-dynamic) *)
+(* rules the validation code does not enforce (known findings D8, D17, D4-dynamic) *)
 Definition known_holes : list rule :=
-  [RSharedFilterMalformed; RTopicNul; RWillTopic; RSubscriptionIdNotAvailable].
+  [RSharedFilterMalformed; RWillTopic; RSubscriptionIdNotAvailable].
 
 (* QoS is a three-valued Rust enum *)
 Definition qos_repr (p : packet) : Prop :=
@@ -367,9 +370,7 @@ Lemma filter_dyn_rules st x :
   forall rl, In rl (subscription_rules st x) -> In rl known_holes.
 Proof.
   unfold filter_dyn, subscription_rules, no_local_set. intros H rl Hin. split_and. in_cases;
-    apply in_req in Hin as [Hc ->]; try (cbn; tauto); exfalso.
-  - congruence.
-  - destruct (filter_has_wildcard (sub_filter x)), (st_wildcard_subscriptions_available st); cbn in *; congruence.
+    apply in_req in Hin as [Hc ->]; try (cbn; tauto); exfalso; try congruence.
   - destruct (spec_shared_filter (sub_filter x)), (st_shared_subscriptions_available st); cbn in *; congruence.
   - destruct (spec_shared_filter (sub_filter x)), (st_shared_subscriptions_available st), (sub_no_local x); cbn in *; congruence.
 Qed.
@@ -378,7 +379,7 @@ Lemma filter_dyn_unsub_rules st f :
   filter_dyn st None f = true -> forall rl, In rl (unsubscribe_filter_rules f) -> In rl known_holes.
 Proof.
   unfold filter_dyn, unsubscribe_filter_rules. intros H rl Hin. split_and. in_cases;
-    apply in_req in Hin as [Hc ->]; try (cbn; tauto); exfalso. congruence.
+    apply in_req in Hin as [Hc ->]; try (cbn; tauto); exfalso; congruence.
 Qed.
 
 Lemma flat_map_holes {A} (f : A -> list rule) (P : A -> bool) l :
@@ -412,6 +413,115 @@ Ltac ack_case Hs Hd :=
   unfold ack_dyn, ack_rules, size_rules, check_size_spec in *; split_and;
   in_cases; try ups_done; finish.
 
+Lemma violations_res st co r p id :
+  violations st co r (bind_pid p id) = violations st co (res_of (bind_pid p id) r) (bind_pid p id).
+Proof. destruct p; cbn [bind_pid violations res_of]; try reflexivity. destruct (pub_qos p =? 0); reflexivity. Qed.
+
+(* the statement of soundness for one packet, after the two validations were characterised *)
+Definition sound_for (st : settings) (co : connect_opts) (r : resolution) (p : packet) (id : N) : Prop :=
+  qos_repr p -> spec_remaining (bind_pid p id) r < 4294967296 ->
+  static_spec p = true ->
+  is_ok (validate_outbound_internal (Some st) co r (bind_pid p id)) = true ->
+  forall rl, In rl (violations st co (res_of (bind_pid p id) r) (bind_pid p id)) -> In rl known_holes.
+
+Lemma sound_connect st co r c id : sound_for st co r (Connect c) id.
+Proof.
+  intros Hq Hsm Hs Hd rl Hin. cbn [static_spec] in Hs.
+  cbn [bind_pid violations] in *. clear Hd. unfold connect_static, connect_rules, auth_data_ok, nz_ok in *. split_and.
+  destruct (con_will c) as [w|]; [unfold will_static in *; split_and|];
+  in_cases; try ups_done;
+  apply in_req in Hin as [Hc ->]; try (cbn; tauto); exfalso;
+  repeat match goal with H : ?c = true |- _ => rewrite H in Hc end; cbn in Hc; try discriminate; congruence.
+Qed.
+
+Lemma publish_sound_core st co r q :
+  pub_qos q <= 2 -> spec_remaining (Publish q) r < 4294967296 ->
+  negb (pub_dup q) = true -> spec_topic (pub_topic q) = true -> no_nul (pub_topic q) = true ->
+  alias_nz (pub_alias q) = true -> is_none (pub_subids q) = true -> otopic_ok (pub_response_topic q) = true ->
+  ups_ok (pub_up q) = true -> ostr_ok (pub_correlation q) = true -> ostr_ok (pub_content_type q) = true ->
+  is_ok (validate_outbound_internal (Some st) co r (Publish q)) = true ->
+  violations st co r (Publish q) = [].
+Proof.
+  intros Hq Hsm Hdup Ht Hn Ha Hsi Hrt Hup Hco Hct Hd.
+  assert (Hsub : pub_subids q = None) by (destruct (pub_subids q); [discriminate|reflexivity]).
+  rewrite (is_ok_dynamic st co r (Publish q)) in Hd.
+  2:{ intros _. split; [|split]; [cbn; now rewrite Hsub | exact Hsm | exact I]. }
+  cbn [dyn_spec] in Hd. unfold publish_dyn, check_size_spec in Hd.
+  unfold otopic_ok, alias_nz in *. split_and.
+  match goal with H : pid_dyn _ _ = true |- _ => apply pid_rule in H; rename H into Hpid end.
+  match goal with H : qos_dyn _ _ = true |- _ => apply (qos_rule _ _ Hq) in H; rename H into Hqos end.
+  apply ups_rules_ok in Hup.
+  cbn [violations]. unfold publish_rules, size_rules.
+  rewrite Ht, Hn, Ha, Hdup, Hsub, Hco, Hct, Hup, Hpid, Hqos.
+  repeat match goal with H : ?c = true |- _ => rewrite H; clear H end.
+  reflexivity.
+Qed.
+
+Lemma sound_publish st co r p id : sound_for st co r (Publish p) id.
+Proof.
+  intros Hq Hsm Hs Hd rl Hin. cbn [static_spec] in Hs. cbn [qos_repr] in Hq.
+  unfold publish_static in Hs. split_and.
+  revert Hsm Hd rl Hin. cbn [bind_pid].
+  destruct (pub_qos p =? 0); cbn [res_of]; intros Hsm Hd rl Hin;
+    (erewrite publish_sound_core in Hin; [destruct Hin | ..]; assumption).
+Qed.
+
+Lemma sound_puback st co r a id : sound_for st co r (Puback a) id.
+Proof. intros Hq Hsm Hs Hd rl Hin. cbn [static_spec] in Hs. ack_case Hs Hd. Qed.
+Lemma sound_pubrec st co r a id : sound_for st co r (Pubrec a) id.
+Proof. intros Hq Hsm Hs Hd rl Hin. cbn [static_spec] in Hs. ack_case Hs Hd. Qed.
+Lemma sound_pubrel st co r a id : sound_for st co r (Pubrel a) id.
+Proof. intros Hq Hsm Hs Hd rl Hin. cbn [static_spec] in Hs. ack_case Hs Hd. Qed.
+Lemma sound_pubcomp st co r a id : sound_for st co r (Pubcomp a) id.
+Proof. intros Hq Hsm Hs Hd rl Hin. cbn [static_spec] in Hs. ack_case Hs Hd. Qed.
+
+Lemma sound_subscribe st co r p id : sound_for st co r (Subscribe p) id.
+Proof.
+  intros Hq Hsm Hs Hd rl Hin. cbn [static_spec] in Hs.
+  unfold subscribe_static in Hs. split_and.
+  rewrite is_ok_dynamic in Hd.
+  2:{ intros _. split; [reflexivity|split; [now rewrite spec_remaining_res|]].
+      cbn. unfold subid_static in *. destruct (s_subid p); [split_and; lia|exact I]. }
+  cbn [bind_pid dyn_spec violations res_of] in *.
+  unfold subscribe_dyn, subscribe_rules, size_rules, check_size_spec, subid_static in *.
+  cbn [s_pid s_subs s_subid s_up] in *. split_and. in_cases; try ups_done.
+  2:{ eapply flat_map_holes; [|eassumption|eassumption]. intros x Hx. now apply filter_dyn_rules. }
+  all: finish.
+Qed.
+
+Lemma sound_unsubscribe st co r p id : sound_for st co r (Unsubscribe p) id.
+Proof.
+  intros Hq Hsm Hs Hd rl Hin. cbn [static_spec] in Hs.
+  unfold unsubscribe_static in Hs. split_and.
+  rewrite is_ok_dynamic in Hd by size_tac.
+  cbn [bind_pid dyn_spec violations res_of] in *.
+  unfold unsubscribe_dyn, unsubscribe_rules, size_rules, check_size_spec in *.
+  cbn [u_pid u_filters u_up] in *. split_and. in_cases; try ups_done.
+  2:{ eapply flat_map_holes; [|eassumption|eassumption]. intros x Hx. now apply (filter_dyn_unsub_rules st). }
+  all: finish.
+Qed.
+
+Lemma sound_disconnect st co r p id : sound_for st co r (Disconnect p) id.
+Proof.
+  intros Hq Hsm Hs Hd rl Hin. cbn [static_spec] in Hs.
+  unfold disconnect_static in Hs. split_and.
+  rewrite is_ok_dynamic in Hd by size_tac.
+  cbn [bind_pid dyn_spec violations res_of] in *.
+  unfold disconnect_dyn, disconnect_rules, size_rules, check_size_spec, sei_dyn in *. split_and.
+  in_cases; try ups_done; finish.
+Qed.
+
+Lemma sound_auth st co r p id : sound_for st co r (Auth p) id.
+Proof.
+  intros Hq Hsm Hs Hd rl Hin. cbn [static_spec] in Hs.
+  unfold auth_static in Hs. split_and.
+  rewrite is_ok_dynamic in Hd by size_tac.
+  cbn [bind_pid dyn_spec violations res_of] in *.
+  unfold auth_dyn, auth_rules, size_rules, check_size_spec, is_none in *. split_and.
+  in_cases; try ups_done; finish.
+  destruct (au_method p); discriminate.
+Qed.
+
 Theorem sound_rules : forall st co r p id,
   qos_repr p -> spec_remaining (bind_pid p id) r < 4294967296 ->
   validate_outbound p = Ok tt ->
@@ -419,70 +529,20 @@ Theorem sound_rules : forall st co r p id,
   forall rl, In rl (violations st co r (bind_pid p id)) -> In rl known_holes.
 Proof.
   intros st co r p id Hq Hsm Hs Hd rl Hin.
-  apply is_ok_tt in Hs, Hd. rewrite is_ok_static in Hs.
-  assert (Hv : violations st co r (bind_pid p id) = violations st co (res_of (bind_pid p id) r) (bind_pid p id)).
-  { destruct p; cbn [bind_pid violations res_of]; try reflexivity. destruct (pub_qos p =? 0); reflexivity. }
-  rewrite Hv in Hin. clear Hv.
-  destruct p; cbn [static_spec] in Hs; try discriminate Hs.
-  - (* CONNECT *)
-    cbn [bind_pid violations] in *. clear Hd. unfold connect_static, connect_rules, auth_data_ok, nz_ok in *. split_and.
-    destruct (con_will p) as [w|]; [unfold will_static in *; split_and|];
-    in_cases; try ups_done;
-    apply in_req in Hin as [Hc ->]; try (cbn; tauto); exfalso;
-    repeat match goal with H : ?c = true |- _ => rewrite H in Hc end; cbn in Hc; try discriminate; congruence.
-  - (* PUBLISH *)
-    unfold publish_static in Hs. split_and.
-    assert (Hsub : pub_subids p = None) by (destruct (pub_subids p); [discriminate|reflexivity]).
-    rewrite is_ok_dynamic in Hd.
-    2:{ intros _. split; [|split].
-        - cbn. destruct (pub_qos p =? 0); cbn; now rewrite Hsub.
-        - now rewrite spec_remaining_res.
-        - cbn. destruct (pub_qos p =? 0); exact I. }
-    cbn [bind_pid] in *.
-    destruct (pub_qos p =? 0) eqn:Eq; cbn [dyn_spec violations res_of] in *;
-    unfold publish_dyn, publish_rules, size_rules, check_size_spec, alias_nz, is_none, otopic_ok in *;
-    cbn [pub_pid pub_topic pub_qos pub_dup pub_retain pub_payload pub_pfi pub_mei pub_alias pub_response_topic
-         pub_correlation pub_subids pub_content_type pub_up] in *;
-    split_and; in_cases; try ups_done;
-    apply in_req in Hin as [Hc ->]; try (cbn; tauto); exfalso; try congruence;
-    try (match goal with H : pid_dyn _ _ = true |- _ => apply pid_rule in H end; congruence);
-    try (cbn in Hq; match goal with H : qos_dyn _ _ = true |- _ => apply (qos_rule _ _ Hq) in H end; congruence).
-  - (* PUBACK *) ack_case Hs Hd.
-  - (* PUBREC *) ack_case Hs Hd.
-  - (* PUBREL *) ack_case Hs Hd.
-  - (* PUBCOMP *) ack_case Hs Hd.
-  - (* SUBSCRIBE *)
-    unfold subscribe_static in Hs. split_and.
-    rewrite is_ok_dynamic in Hd.
-    2:{ intros _. split; [reflexivity|split; [now rewrite spec_remaining_res|]].
-        cbn. unfold subid_static in *. destruct (s_subid p); [split_and; lia|exact I]. }
-    cbn [bind_pid dyn_spec violations res_of] in *.
-    unfold subscribe_dyn, subscribe_rules, size_rules, check_size_spec, subid_static in *.
-    cbn [s_pid s_subs s_subid s_up] in *. split_and. in_cases; try ups_done.
-    2:{ eapply flat_map_holes; [|eassumption|eassumption]. intros x Hx. now apply filter_dyn_rules. }
-    all: finish.
-  - (* UNSUBSCRIBE *)
-    unfold unsubscribe_static in Hs. split_and.
-    rewrite is_ok_dynamic in Hd by size_tac.
-    cbn [bind_pid dyn_spec violations res_of] in *.
-    unfold unsubscribe_dyn, unsubscribe_rules, size_rules, check_size_spec in *.
-    cbn [u_pid u_filters u_up] in *. split_and. in_cases; try ups_done.
-    2:{ eapply flat_map_holes; [|eassumption|eassumption]. intros x Hx. now apply (filter_dyn_unsub_rules st). }
-    all: finish.
-  - (* PINGREQ *) destruct Hin.
-  - (* DISCONNECT *)
-    unfold disconnect_static in Hs. split_and.
-    rewrite is_ok_dynamic in Hd by size_tac.
-    cbn [bind_pid dyn_spec violations res_of] in *.
-    unfold disconnect_dyn, disconnect_rules, size_rules, check_size_spec, sei_dyn in *. split_and.
-    in_cases; try ups_done; finish.
-  - (* AUTH *)
-    unfold auth_static in Hs. split_and.
-    rewrite is_ok_dynamic in Hd by size_tac.
-    cbn [bind_pid dyn_spec violations res_of] in *.
-    unfold auth_dyn, auth_rules, size_rules, check_size_spec, is_none in *. split_and.
-    in_cases; try ups_done; finish.
-    destruct (au_method p); discriminate.
+  apply is_ok_tt in Hs, Hd. rewrite is_ok_static in Hs. rewrite violations_res in Hin.
+  revert Hq Hsm Hs Hd rl Hin. change (sound_for st co r p id).
+  destruct p; try (intros _ _ Hs; cbn [static_spec] in Hs; discriminate Hs).
+  - apply sound_connect.
+  - apply sound_publish.
+  - apply sound_puback.
+  - apply sound_pubrec.
+  - apply sound_pubrel.
+  - apply sound_pubcomp.
+  - apply sound_subscribe.
+  - apply sound_unsubscribe.
+  - (* PINGREQ *) intros _ _ _ _ rl [].
+  - apply sound_disconnect.
+  - apply sound_auth.
 Qed.
 
 Theorem sound_conforms : forall st co r p id,
@@ -496,7 +556,7 @@ Proof.
   pose proof (sound_rules st co r p id Hq Hsm Hs Hd) as H.
   destruct (violations st co r (bind_pid p id)) as [|rl l]; [reflexivity|]. exfalso.
   specialize (H rl (or_introl eq_refl)). cbn [existsb] in Hk. apply orb_false_iff in Hk as [Hk _].
-  cbn in H. destruct H as [<-|[<-|[<-|[<-|[]]]]]; cbn in Hk; discriminate.
+  cbn in H. destruct H as [<-|[<-|[<-|[]]]]; cbn in Hk; discriminate.
 Qed.
 
 (* ================= completeness ================= *)
